@@ -1,6 +1,33 @@
 package main
 
+import (
+	"go/ast"
+	"strings"
+)
+
 // factsAll collects the remaining fact groups (one function per subsystem, added as models grow).
+var moreFacts []func()
+
 func factsAll() {
 	factsVesting()
+	for _, f := range moreFacts {
+		f()
+	}
+}
+
+func containsSrc(n ast.Node, needle string) bool { return strings.Contains(src(n), needle) }
+
+func init() { moreFacts = append(moreFacts, factsFeeMarket) }
+
+// factsFeeMarket: does Params.Validate reject a zero elasticity multiplier?
+func factsFeeMarket() {
+	rejects := false
+	if fd := funcDecl("x/feemarket/types/params.go", "Params", "Validate"); fd != nil {
+		rejects = containsSrc(fd.Body, "p.ElasticityMultiplier == 0")
+	}
+	rejects2 := false
+	if fd := funcDecl("x/feemarket/types/params.go", "", "validateElasticityMultiplier"); fd != nil {
+		rejects2 = containsSrc(fd.Body, "== 0")
+	}
+	emitBool("feemarketValidateRejectsZeroElasticity", rejects && rejects2, "feemarket Params.Validate and the param-set validator both reject ElasticityMultiplier == 0")
 }
